@@ -60,7 +60,7 @@ def check(chk: Check) -> None:
                             'value resolves to a numeric constant t with 0 < t <= 0.5 s', floor=3)
     R2 = chk.rule('C05.R2', 'no untimed engine: no call into stdlib re (which has no timeout) from any function reachable '
                             'from the function table', floor=1)
-    R3 = chk.rule('C05.R3', 'linear glue: the code around the engine call has no loop nested inside another loop', floor=3)
+    R3 = chk.rule('C05.R3', 'linear glue: the code around the engine call has no loop nested inside another loop and no list search (in / index / count / remove on a list) inside a loop', floor=3)
     chk.decided += ['the timeout discipline: a necessary condition of the property (without it a catastrophic pattern runs for minutes)']
     chk.not_decided += ['the wall-clock bound itself: time spent inside the third-party regex C extension, whether it honours its '
                         'timeout promptly, and pattern compilation (no timeout exists for that phase)']
@@ -124,6 +124,16 @@ def check(chk: Check) -> None:
                     depth = len(e.in_ctx('loop')) + len(e.in_ctx('comp'))
                     if depth >= 2:
                         nested.append('`%s` sits in %d nested loops' % (e.text(), depth))
+                    if depth >= 1 and e.kind == 'assume':
+                        c_ = freeze(e.cond)
+                        while isinstance(c_, tuple) and c_[:1] == ('not',):
+                            c_ = c_[1]
+                        if isinstance(c_, tuple) and c_[:1] == ('cmp',) and c_[1] in ('in', 'not in') and isinstance(c_[3], tuple) and c_[3][:1] == ('list',):
+                            nested.append('`%s` searches a list inside a loop: a scan per iteration, quadratic in the number of matches' % e.text())
+                    if depth >= 1 and e.kind == 'call':
+                        f_ = freeze(e.func)
+                        if isinstance(f_, tuple) and f_[:1] == ('attr',) and f_[2] in ('index', 'count', 'remove') and isinstance(f_[1], tuple) and f_[1][:1] == ('list',):
+                            nested.append('`%s` scans a list inside a loop: quadratic in the number of matches' % e.text())
                     if depth >= 1 and engine_call(e) is not None:
                         nested.append('the engine call `%s` sits in a loop: every iteration gets a fresh timeout, so the total '
                                       'time is (number of iterations) x timeout, not one timeout' % e.text())
